@@ -4,7 +4,7 @@ every custom resolver looks its return value up in the current case's table
 (path, parent identity, arguments, context identity) and optionally waits on a
 harness-owned gate so the schedule can be decided by the caller."""
 import base
-from base import Loop, main_loop, unique_schema_name
+from base import Loop, main_loop, unique_schema_name, snapshot_and_scribble
 import render
 
 
@@ -156,7 +156,7 @@ class World:
         def mk(tn, fn):
             fd_type = self.types[tn]["fields"][fn]["type"]
             kw = {}
-            if "field" in trs and "%s.%s" % (tn, fn) in ("Query.p", "Query.lp", "Query.np"):
+            if "field" in trs and "%s.%s" % (tn, fn) in ("Query.p", "Query.lp", "Query.np", "Query.lnp"):
                 kw["type_resolver"] = field_type_resolver
             if "field_parent_conc" in cfg:
                 kw["parent_concurrently"] = cfg["field_parent_conc"]
@@ -169,7 +169,7 @@ class World:
             async def resolver(parent, args, ctx, info):
                 cs = ctx.get("__cs") if isinstance(ctx, dict) and "__cs" in ctx else world.case
                 path = tuple(render.path_spec(info.path.as_list()))
-                cs.calls.append((path, world.ident(parent), dict(args), ctx))
+                cs.calls.append((path, world.ident(parent), snapshot_and_scribble(args), ctx))
                 if cs.adversary is not None:
                     return cs.adversary.value(fd_type, list(path))
                 raw = cs.table.get(path)
